@@ -43,6 +43,42 @@ fn main() {
         let r = brent((*a, *b), |x| f(x), 1e-9);
         if let Ok(x) = r { if x < *a || x > *b || f(x).abs() > 1e-6 { found.push(format!("brent {name}: Ok({x}) residual {}", f(x))); } }
     }
+    // ITP's evaluation bound (n_1/2 + n_0 iterations, plus the two end points), in both orientations of the bracket and of f
+    for (name, f, a, b) in [("-(x-0.3)^5 on (0,1)", (|x: f64| -(x - 0.3).powi(5)) as fn(f64) -> f64, 0.0, 1.0), ("(x-0.3)^5 on (0,1)", (|x: f64| (x - 0.3).powi(5)) as fn(f64) -> f64, 0.0, 1.0),
+                            ("-(x^3) on (-1,10)", (|x: f64| -(x * x * x)) as fn(f64) -> f64, -1.0, 10.0), ("x^3 on (-1,10)", (|x: f64| x * x * x) as fn(f64) -> f64, -1.0, 10.0),
+                            ("(x-0.3)^5 on (1,0)", (|x: f64| (x - 0.3).powi(5)) as fn(f64) -> f64, 1.0, 0.0), ("-(x^3) on (10,-1)", (|x: f64| -(x * x * x)) as fn(f64) -> f64, 10.0, -1.0)] {
+        let c = std::cell::Cell::new(0usize);
+        let r = itp((a, b), |x| { c.set(c.get() + 1); if c.get() > 20000 { return f64::NAN; } f(x) }, 0.1, 2.0, 1.0, 1e-6);
+        let bound = (((b - a) as f64).abs() / 2e-6).log2().ceil() as usize + 1 + 2;
+        if r.is_ok() && c.get() > bound + 4 { found.push(format!("itp {name}: {} function evaluations, the method's bound is {bound}", c.get())); }
+    }
+    // invalid parameters give Err; every call stays within an evaluation budget (a callback that panics past the budget,
+    // caught here, makes a non-terminating loop observable)
+    {
+        use std::panic::{catch_unwind, AssertUnwindSafe};
+        std::panic::set_hook(Box::new(|_| {}));
+        let budget = 5000usize;
+        let mut guarded = |name: &str, call: &mut dyn FnMut(&mut dyn FnMut(f64) -> f64) -> Option<bool>, want_err: bool| {
+            let cnt = std::cell::Cell::new(0usize);
+            let mut cb = |x: f64| -> f64 { cnt.set(cnt.get() + 1); if cnt.get() > budget { panic!("budget"); } x * x - 2.0 };
+            let r = catch_unwind(AssertUnwindSafe(|| call(&mut cb)));
+            match r {
+                Err(_) => found.push(format!("{name}: more than {budget} function evaluations (does not terminate)")),
+                Ok(Some(is_ok)) => { if want_err && is_ok { found.push(format!("{name}: returned Ok instead of Err")); } }
+                Ok(None) => {}
+            }
+        };
+        guarded("brent with tolerance -1e-3", &mut |cb| Some(brent((1.0, 2.0), |x| cb(x), -1e-3).is_ok()), true);
+        guarded("brent on a bracket without sign change", &mut |cb| Some(brent((2.0, 3.0), |x| cb(x), 1e-6).is_ok()), true);
+        guarded("brent (1,2) tol 1e-10", &mut |cb| Some(brent((1.0, 2.0), |x| cb(x), 1e-10).is_ok()), false);
+        guarded("itp with tolerance -1e-3", &mut |cb| Some(itp((1.0, 2.0), |x| cb(x), 0.1, 2.0, 1.0, -1e-3).is_ok()), true);
+        guarded("itp with k_1 = -1", &mut |cb| Some(itp((1.0, 2.0), |x| cb(x), -1.0, 2.0, 1.0, 1e-6).is_ok()), true);
+        guarded("itp with k_2 = 0.5", &mut |cb| Some(itp((1.0, 2.0), |x| cb(x), 0.1, 0.5, 1.0, 1e-6).is_ok()), true);
+        guarded("itp on a bracket without sign change", &mut |cb| Some(itp((2.0, 3.0), |x| cb(x), 0.1, 2.0, 1.0, 1e-6).is_ok()), true);
+        guarded("itp (1,2) tol 1e-10", &mut |cb| Some(itp((1.0, 2.0), |x| cb(x), 0.1, 2.0, 1.0, 1e-10).is_ok()), false);
+        guarded("bisection with tolerance -1e-3", &mut |cb| Some(bisection((1.0, 2.0), |x| cb(x), -1e-3, 100).is_ok()), true);
+        guarded("bisection on a bracket without sign change", &mut |cb| Some(bisection((2.0, 3.0), |x| cb(x), 1e-6, 100).is_ok()), true);
+    }
     println!("{{\"found\": {}, \"failures\": {:?}}}", !found.is_empty(), found);
     std::process::exit(if found.is_empty() { 0 } else { 1 });
 }
